@@ -1,5 +1,6 @@
 import MgProof.C02.Assemble
 import MgProof.C02.LemmasG
+import MgProof.C02.LemmasH
 /-!
 # C02 — ring buffer: one total write order; read `i` = `i`-th message; read-once exactly once; HB
 
@@ -181,6 +182,45 @@ theorem specOk_reachable {c : Cfg} {e : Nat} (wf : WF c e) {s : St}
     right
     have := read_returns_ith_message wf hm hr t
     rw [this.2]; exact this.1
+
+/-! ## End to end: a run that has terminated -/
+
+theorem invH_reach {c : Cfg} {e : Nat} (wf : WF c e) (ok : IdsOK c) {s : St}
+    (hr : Reach (step c) (mkInit c) s) : (InvAll c s ∧ InvG c s) ∧ InvH c s := by
+  refine Reach.inv (fun s => (InvAll c s ∧ InvG c s) ∧ InvH c s)
+    ⟨⟨inv_init wf, invG_init c⟩, invH_init c⟩ ?_ s hr
+  intro s tok s' ev h hs
+  simp only [step, Option.map_eq_some_iff] at hs
+  obtain ⟨s1, hs1, heq⟩ := hs
+  cases heq
+  exact ⟨⟨inv_step wf h.1.1 hs1, invG_step ok h.1.1.a1 h.1.2 hs1⟩, invH_step h.1.1 h.1.2 h.2 hs1⟩
+
+/-- **A terminated run exchanged everything** (wait / single-wait / busy readers): when every thread
+has finished, every message of every writer is in the write order exactly once and every reader
+has been handed exactly the `nr` messages `written[pre], …, written[pre+nr-1]` it asked for. -/
+theorem terminated_run_complete {c : Cfg} {e : Nat} (wf : WF c e) (ok : IdsOK c) (hm : c.rm ≠ .once)
+    {s : St} (hr : Reach (step c) (mkInit c) s) (hdone : ∀ t, t < c.nT → s.pc t = .done) :
+    s.written.Nodup ∧ (∀ t k, t < c.nW → k < c.nw → msgId t k ∈ s.written) ∧
+    (∀ t, c.nW ≤ t → t < c.nT → s.got t = (s.written.drop c.pre).take c.nr) := by
+  obtain ⟨⟨_, g⟩, h⟩ := invH_reach wf ok hr
+  refine ⟨g.nd, ?_, ?_⟩
+  · intro t k ht hk
+    have hn : t < c.nT := by simp only [Cfg.nT]; omega
+    have hd := hdone t hn
+    have hw := (h.fin t hd hn).1 ht
+    apply g.cmp
+    simp only [pub, hd, published]
+    simp; omega
+  · intro t h1 h2
+    have hd := hdone t h2
+    have hrk := (h.fin t hd h2).2 h1
+    rw [(read_returns_ith_message wf hm hr t).1, hrk]
+
+/-- the hypothesis `WF.hcap` is what the real initialisation guarantees: a successful
+`muggle_ring_buffer_init` (as modelled by `initRing`, compared with the real function on every
+flag combination and on capacities incl. the `int` overflow edge) stores a power of two. -/
+theorem init_capacity_pow2 {capreq flag cap : Nat} {w : WMode} {r : RMode}
+    (h : initRing capreq flag = .ok (cap, w, r)) : ∃ e, e ≤ 32 ∧ cap = 2 ^ e := initRing_pow2 h
 
 /-! ## Non-vacuity and the necessity of the precondition -/
 
